@@ -166,6 +166,10 @@ func NewControl(
 	if poolCount > int(serverCfg.Transport.MaxPoolCount) {
 		poolCount = int(serverCfg.Transport.MaxPoolCount)
 	}
+	if poolCount < 0 {
+		// the value comes from the login message of the client
+		poolCount = 0
+	}
 	ctl := &Control{
 		rc:            rc,
 		pxyManager:    pxyManager,
